@@ -2,6 +2,8 @@ package vegeta_test
 
 import (
 	"bytes"
+	"compress/gzip"
+	"compress/zlib"
 	"encoding/base64"
 	"encoding/json"
 	"fmt"
@@ -291,8 +293,30 @@ var c16Trailers = func() []string {
 	return out
 }()
 
+// compressed and other container formats: small inputs that unfold into large ones if anything decodes them
+var c16Containers = func() [][]byte {
+	var out [][]byte
+	gz := func(content []byte) []byte {
+		var buf bytes.Buffer
+		w := gzip.NewWriter(&buf)
+		w.Write(content)
+		w.Close()
+		return buf.Bytes()
+	}
+	out = append(out, gz(bytes.Repeat([]byte("A"), 32<<20)), gz(bytes.Repeat([]byte("{"), 8<<20)), gz([]byte(`{"attack":"","seq":0,"code":200,"timestamp":"2020-01-01T00:00:00Z","latency":1}`+"\n")), gz(nil))
+	var zb bytes.Buffer
+	zw := zlib.NewWriter(&zb)
+	zw.Write(bytes.Repeat([]byte("A"), 16<<20))
+	zw.Close()
+	out = append(out, zb.Bytes(), []byte("\x1f\x8b"), []byte("\x1f\x8b\x08\x00"), append([]byte("\x1f\x8b\x08\x08\x00\x00\x00\x00\x00\x03"), bytes.Repeat([]byte("n"), 70000)...))
+	return out
+}()
+
 func c16Grammar(t *rapid.T, parser string) []byte {
 	var b strings.Builder
+	if rapid.IntRange(0, 39).Draw(t, "container") == 0 {
+		return rapid.SampledFrom(c16Containers).Draw(t, "containerdoc")
+	}
 	switch parser {
 	case "results":
 		if rapid.Bool().Draw(t, "csv") {
@@ -380,6 +404,7 @@ func c16Grammar(t *rapid.T, parser string) []byte {
 			"X-H: v", "X-H:v", "X-H:", ": v", "NoColon", " X-H: v", "X-H : v", "X-H: v: w", "X-H: " + strings.Repeat("v", 5000), "é: ü", "@/etc/hostname", "@", "@ ", "@/nonexistent/x", "@@", " @/etc/hostname",
 			strings.Repeat("x", 4095), strings.Repeat("x", 4096), strings.Repeat("x", 4097), strings.Repeat("x", 8192), "X-H: " + strings.Repeat("v", 4091), "X-H: " + strings.Repeat("v", 8187), "# " + strings.Repeat("c", 4094),
 			"GET http://h.test/" + strings.Repeat("p", 4078), strings.Repeat("x", 65536), strings.Repeat("x", 65535),
+			"GET http://h.test/ HTTP/1.1", "GET http://h.test/ HTTP/", "GET http://h.test/ HTTP", "GET http://h.test/ HTTP/x", "GET  HTTP/", "GET http://h.test/ http/1.1", "HTTP/ http://h.test/",
 			"POST\thttp://h.test/", "GET\fhttp://h.test/", "GET\vhttp://h.test/", "GET\rhttp://h.test/", "PUT\u00a0http://h.test/", "GET\t", "G ET http://h.test/", "GET\thttp://h.test/ x",
 			"", " ", "\t", "# comment", " # indented comment", "#", "\t#@/etc/hostname", "#GET http://h.test/", "\r", "GET http://h.test/\r", "\x00", strings.Repeat("x", 70000)}
 		if rapid.Bool().Draw(t, "structured") {
